@@ -495,4 +495,76 @@ example := rephase_file_no_stale_phase [("chr1", exFileCfg, exFileRecs), ("chr2"
   (by decide)
 
 
+
+/-- **read_written_file**.  Whole files, ploidy included: `VcfReader.__iter__` with `phases=True` (`readFile`: `phase_detected`
+    reset per chromosome, ploidy carried along) on the output of the chromosome loop of `whatshap phase` (`writeFile`) raises
+    nothing — no `MixedPhasingError`, no `PloidyError`, no HP format error, no `VcfNotSortedError` — and returns, chromosome
+    by chromosome, exactly the rows `expRows` (the accepted input records with this run's phase statements), provided
+    every chromosome is position-sorted, its fully called genotypes are diploid, and calls of non-target samples carry
+    no phase information.  Chromosomes may be written with different target sets (e.g. none for a chromosome that
+    `--chromosome` excludes), may contain duplicate positions and records the reader skips. -/
+theorem read_written_file (os : Bool) (groups : List (String × Cfg × List Record)) (hg : ∀ g ∈ groups, GroupOk os g)
+    (pl : Option Nat) (hpl : pl = none ∨ pl = some 2) :
+    ∃ pl' tables, (pl' = none ∨ pl' = some 2) ∧ readFile os pl (writeFile groups) = .ok (pl', tables) ∧
+      tables.map (fun t => (t.1, t.2.map rowPhasesF)) =
+        groups.map (fun g => (g.1, expRows { g.2.1 with repaired := true } g.2.2)) :=
+  readFile_writeFile os groups hg hpl
+
+/-- non-vacuity: the example chromosome written twice (the second time without targets — which `GroupOk` only admits for
+    records without phase information, so an unphased copy is used) -/
+def exPlainRecs : List Record :=
+  [⟨"1", 10, "A", ["C"], ["GT"], [("A", ⟨some [some 0, some 1], false, []⟩), ("B", ⟨some [some 0, some 0], false, []⟩)]⟩,
+   ⟨"2", 10, "A", ["G"], ["GT"], [("A", ⟨some [some 1, some 0], false, []⟩), ("B", ⟨some [none, some 1], false, []⟩)]⟩]
+
+theorem exGroupsOk : ∀ g ∈ [("chr1", exFileCfg, exFileRecs), ("chr2", { exFileCfg with targets := [] }, exPlainRecs)],
+    GroupOk true g := by
+  intro g hg
+  simp only [List.mem_cons, List.not_mem_nil, or_false] at hg
+  have hd : ∀ rs : List Record, (rs.all fun r => r.calls.all fun nc =>
+      match nc.2.gt with | some g => !(g.all Option.isSome) || g.length == 2 | none => true) = true →
+      ∀ r ∈ rs, ∀ nc ∈ r.calls, Dip nc.2.gt := by
+    intro rs h r hr nc hnc g' e hall
+    have := List.all_eq_true.mp (List.all_eq_true.mp h r hr) nc hnc
+    rw [e] at this
+    simp only [hall, Bool.not_true, Bool.false_or, beq_iff_eq] at this
+    exact this
+  rcases hg with rfl | rfl
+  · exact ⟨rfl, rfl, fun r hr => by apply callsOkF_of_B; revert r; decide, by decide, hd _ (by decide)⟩
+  · exact ⟨rfl, rfl, fun r hr => by apply callsOkF_of_B; revert r; decide, by decide, hd _ (by decide)⟩
+
+example := read_written_file true _ exGroupsOk none (Or.inl rfl)
+example : (readFile true none (writeFile [("chr1", exFileCfg, exFileRecs), ("chr2", { exFileCfg with targets := [] }, exPlainRecs)])).toOption.map
+      (fun x => (x.1, x.2.map fun t => (t.1, t.2.map rowPhasesF))) =
+    some (some 2, [("chr1", [(10, [some ⟨some 11, [some 1, some 0]⟩, none]), (20, [some ⟨some 11, [some 0, some 1]⟩, none]),
+                            (40, [some ⟨some 11, [some 1, some 0]⟩, none])]),
+                   ("chr2", [(10, [none, none])])]) := by rfl
+
+
+/-- **phase_input_reader_reads**.  `PhasedInputReader.read` restricted to the phase-input VCFs (`phaseInputReads`): the reads
+    a file contributes are, up to their qualities and names, `blocksAsReads` of the sample's rows in the table the file has
+    for the chromosome (`tableOf`: the last table of that chromosome) — i.e. the objects `pseudo_reads_*` and
+    `phase_input_reproduces_sets` talk about; a file without the sample contributes nothing; and the source ids of the files
+    (handed to read selection as preferred sources) are pairwise different, so the `(name, source id)` keys of
+    `ReadSet.add` cannot clash between two files that use the same phase-set ids. -/
+theorem phase_input_reader_reads (files : List (List PTable)) (nPaths : Nat) (chrom sample : String) (sid : Nat) (iv : List VKey) :
+    (phaseInputReads files nPaths chrom sample sid iv).2.Nodup ∧
+    ∀ (t : PTable) (src : Nat),
+      (pseudoReadsOf t sample iv src sid).map (fun r => (r.sourceId, r.sampleId, r.variants.map (fun v => (v.1, v.2.1)))) =
+        if t.samples.findIdx (· == sample) < t.samples.length then
+          (blocksAsReads 2 (rowsOf t.rows (t.samples.findIdx (· == sample)) iv)).map (fun x => (src, sid, x.2.2))
+        else [] :=
+  ⟨phaseInputReads_ids_nodup files nPaths chrom sample sid iv, fun t src => pseudoReadsOf_spec t sample iv src sid⟩
+
+/-- non-vacuity: two phase-input files with the same block ids; the second has the chromosome twice (the later table wins) and
+    PQ values; a third lacks the sample -/
+def exPT (q : List (List (Option Int))) (rows : List Row) (s : String) : PTable := ⟨"chr1", [s], rows, q⟩
+example : phaseInputReads
+      [[exPT [] exPhaseRows "S"], [exPT [] [] "S", exPT [[some 30], [none], [some 7], [none], [some 0]] exPhaseRows "S"], [exPT [] exPhaseRows "T"]]
+      1 "chr1" "S" 4 [(10, "A", "C"), (30, "A", "C"), (20, "A", "C"), (50, "A", "C")] =
+    ([⟨"S_phase_0_block_5", 1, 4, [(10, some 0, 20), (30, some 1, 20)]⟩, ⟨"S_phase_1_block_5", 1, 4, [(10, some 1, 20), (30, some 0, 20)]⟩,
+      ⟨"S_phase_0_block_9", 1, 4, [(20, some 1, 20), (50, some 1, 20)]⟩, ⟨"S_phase_1_block_9", 1, 4, [(20, some 0, 20), (50, some 0, 20)]⟩,
+      ⟨"S_phase_0_block_5", 2, 4, [(10, some 0, 30), (30, some 1, 7)]⟩, ⟨"S_phase_1_block_5", 2, 4, [(10, some 1, 30), (30, some 0, 7)]⟩,
+      ⟨"S_phase_0_block_9", 2, 4, [(20, some 1, 20), (50, some 1, 0)]⟩, ⟨"S_phase_1_block_9", 2, 4, [(20, some 0, 20), (50, some 0, 0)]⟩],
+     [1, 2, 3]) := by decide
+
 end WhVerif.Props.C09
